@@ -2,6 +2,7 @@ package smtpd
 
 import (
 	"fmt"
+	"strconv"
 	"strings"
 
 	"verifharness/vh"
@@ -53,7 +54,16 @@ func genList(g *vh.Gen, pool []string, wild bool) string {
 	for i := range xs {
 		d := g.Pick(pool...)
 		if wild && g.Chance(0.5) {
-			switch g.Intn(5) {
+			switch g.Intn(7) {
+			case 5: // begins like a LOCAL part, ends like the domain: matches domains only, never a whole address
+				lp := g.Pick("alice", "bob", "carol", "d.e", "u_v", "a!b")
+				d = lp[:1+g.Intn(len(lp))] + "*" + d[g.Intn(len(d)):]
+			case 6: // stars around a piece of a local part; a run of '?' as long as a local part
+				if g.Chance(0.5) {
+					d = "*" + g.Pick("lic", "ob", ".e", "tag", "_") + "*"
+				} else {
+					d = strings.Repeat("?", 3+g.Intn(3)) + g.Pick("*", "?*", "@*")
+				}
 			case 0, 1:
 				if i := strings.IndexByte(d, '.'); i >= 0 {
 					d = "*" + d[i:]
@@ -319,4 +329,41 @@ func Describe(stream []byte) string {
 		s = s[:400] + "..."
 	}
 	return s
+}
+
+// GenStorm: one long session in which k transactions in a row are refused for their size at the end of DATA (no
+// SIZE parameter, or one that lies), followed by transactions that fit. Whatever a server keeps per refusal (a
+// counter, a slot, a buffer) and forgets to give back shows only after many refusals on the same server. The
+// configuration is made permissive (every RCPT accepted) so that each transaction reaches its DATA block.
+func GenStorm(g *vh.Gen, c *Cfg, pool []string, k int) []byte {
+	c.DA, c.DS = true, true
+	c.Acc, c.Rej, c.Sto, c.Dis, c.RejO = "", "", "", "", ""
+	c.MaxRcpt = 200
+	c.MaxBytes = g.Pick2(10, 100, 1000)
+	var b strings.Builder
+	line := func(s string) { b.WriteString(s); b.WriteString("\r\n") }
+	line(g.Pick("HELO", "EHLO") + " storm.example")
+	tx := func(n int, lie bool) {
+		from := "s" + strconv.Itoa(n) + "@" + pool[0]
+		mail := "MAIL FROM:<" + from + ">"
+		if lie {
+			mail += " SIZE=" + strconv.Itoa(1+g.Intn(c.MaxBytes))
+		}
+		line(mail)
+		line("RCPT TO:<" + g.Pick(locals...) + "@" + pool[g.Intn(2)] + ">")
+		line("DATA")
+	}
+	for i := 0; i < k; i++ {
+		tx(i, g.Chance(0.3))
+		b.WriteString(StuffLines([]string{"Subject: big " + strconv.Itoa(i), "", strings.Repeat("p", c.MaxBytes+g.Pick2(1, 2, 7, c.MaxBytes))}))
+		if g.Chance(0.1) {
+			line("NOOP")
+		}
+	}
+	for i := 0; i < 1+g.Intn(2); i++ {
+		tx(k+i, false)
+		b.WriteString(StuffLines([]string{"x"}))
+	}
+	line("QUIT")
+	return []byte(b.String())
 }
